@@ -41,18 +41,19 @@ theorem Rc.add_child {m : Mem} {C : List Nat} {c o : Nat} {fr on child : NodeS} 
   refine ⟨h.nodup, fun j hj => by simp only [Mem.setNode, List.length_set]; exact h.inb j hj, fun j x hx => ?_⟩
   rcases getElem?_setNode hx with ⟨rfl, rfl, _⟩ | ⟨hjo, hx1⟩
   · -- the origin
-    refine ⟨ro.once, fun _ => ?_, fun hd => by simp only at hd; omega, fun o' ho' => by simp only at ho'; rw [horig] at ho'; cases ho'⟩
+    refine ⟨ro.once, fun _ => ?_, fun hd => by simp only at hd; omega, fun o' ho' => (by simp only at ho'; rw [horig] at ho'; cases ho'),
+      fun hu hoo k hk => ro.caller hu hoo k hk⟩
     have := ro.live holive
     rw [hch2]; simp only [if_true]
     omega
   · rcases getElem?_setNode hx1 with ⟨rfl, rfl, _⟩ | ⟨hjc, hx0⟩
     · -- the new child
-      refine ⟨by omega, fun _ => ?_, fun hd => by omega, fun o' ho' _ => ?_⟩
+      refine ⟨by omega, fun _ => ?_, fun hd => by omega, fun o' ho' _ => ?_, fun _ hoo => (by rw [h1] at hoo; cases hoo)⟩
       · rw [hch2, inC_cons_self, hchc, h3]; simp [hjo]
       · rw [h1] at ho'; cases ho'
         exact ⟨hoc, h4, by omega, _, hgeto, horig, h5.symm⟩
     · have rx := h.node j x hx0
-      refine ⟨rx.once, fun h0 => ?_, fun hd => ?_, fun o' ho' h0 => ?_⟩
+      refine ⟨rx.once, fun h0 => ?_, fun hd => ?_, fun o' ho' h0 => ?_, rx.caller⟩
       · rw [hch2]; simp only [hjo, if_false, Nat.add_zero]; exact rx.live h0
       · obtain ⟨a, b, cc, d, e⟩ := rx.dead hd
         exact ⟨a, b, by rw [hch2]; simp only [hjo, if_false, Nat.add_zero]; exact cc, d, e⟩
@@ -68,6 +69,9 @@ theorem Rc.add_child {m : Mem} {C : List Nat} {c o : Nat} {fr on child : NodeS} 
             exact ⟨a, b, cc, _, hgeto, horig, f⟩
           · exact ⟨a, b, cc, on2, hget2 o' on2 ho'c ho'o d, e, f⟩
 
+theorem mallocMem_ext (cfg : Cfg) (m : Mem) (c : Nat) : Ext m (m.mallocMem cfg c).1 := by
+  unfold Mem.mallocMem; split <;> exact allocBlock_ext _ _ _
+
 theorem mallocMem_nodes (cfg : Cfg) (m : Mem) (c : Nat) : (m.mallocMem cfg c).1.nodes = m.nodes := by
   unfold Mem.mallocMem; split <;> simp [Mem.allocBlock]
 
@@ -77,10 +81,11 @@ theorem newNode_rc {cfg : Cfg} {m : Mem} {C : List Nat} (size : Nat) (h : Rc m C
   obtain ⟨h1, h2⟩ := newNode_cases cfg m size
   rw [h1]
   rcases h2 with ⟨_, h2⟩ | ⟨_, c, h2⟩
-  · rw [h2]; exact h.append_fresh rfl rfl rfl
+  · rw [h2]; exact h.append_fresh rfl rfl rfl (fun _ => rfl)
   · rw [h2]
     have hn := mallocMem_nodes cfg m c
-    have := (h.of_nodes_eq hn).append_fresh (nd := { block := some (m.mallocMem cfg c).2.1, cap := (m.mallocMem cfg c).2.2 }) rfl rfl rfl
+    have := (h.of_nodes_eq hn (mallocMem_ext cfg m c)).append_fresh (nd := { block := some (m.mallocMem cfg c).2.1, cap := (m.mallocMem cfg c).2.2 }) rfl rfl rfl
+      (fun hu => by cases hu)
     rw [hn] at this
     rw [hn]
     exact this
@@ -163,7 +168,7 @@ theorem refer_rc {cfg : Cfg} {m m' : Mem} {C : List Nat} {i n c : Nat} (h : Rc m
           exact ⟨e1, h.origin_live d hcho, e2⟩
       obtain ⟨f1, f2, f3⟩ := hfacts
       have key := rA.add_child hcA rfl rfl honA f1 f2 hoc (child := nd.childOf i n) rfl rfl rfl rfl (by simp [NodeS.childOf, f3])
-      refine key.of_nodes_eq ?_
+      refine key.of_nodes_eq ?_ (Ext.of_blocks_eq rfl)
       simp only [Mem.setNode] at hcomm ⊢
       rw [hcomm]
 
